@@ -42,12 +42,55 @@ def run(ctx, rep):
     if r is not None:
         parent, cls = r
         check_passthrough(fx, rep, cls)
+        check_wrapped_slot(fx, rep, parent)
         check_instruction_wrappers(fx, rep, cls)
     import c29
     c29.check_instruction(fx, _Rename(rep, 'R2-instruction-wrapper'))
     check_purity(ctx, rep)
     check_justification(fx, rep)
     rep.assume('an inspector that rewrites inputs or outcomes is by definition not "observing"; the wrappers faithfully forward whatever the hook returns')
+
+
+def check_wrapped_slot(fx, rep, parent):
+    """R1b: the handler a wrapper delegates to is the one it replaces.  For every
+    `handler.X.SLOT = Arc::new(closure)` in inspector_handle_register, the previous-handler value the
+    closure captured is a clone of the same `handler.X.SLOT` (a wrapper that captured another slot's
+    handler would run, e.g., the CREATE outcome logic for an EOFCREATE whenever an inspector is on)."""
+    from cfg import Origins
+    og = Origins(parent, fx)
+    n = 0
+    for b in parent.blocks:
+        if b.cleanup:
+            continue
+        for s_ in b.stmts:
+            if s_.kind != 'assign' or s_.place.b != 1 or not s_.place.pr or s_.rv is None or not s_.rv.ops:
+                continue
+            slot = tuple(p for p in s_.place.pr if p != '*')
+            clos = None
+            for o in og.of_operand(s_.rv.ops[0]):
+                if o.root[0] == 'call' and o.root[1].endswith('Arc::new'):
+                    for a in og.of_operand(parent.blocks[o.root[2]].term.args[0]):
+                        if a.root[0] == 'agg' and '{closure' in str(a.root[1]):
+                            clos = a
+            if clos is None:
+                continue
+            n += 1
+            key = ''.join(slot)[1:]
+            prev_slots = set()
+            for cap in clos.root[4]:
+                for c in cap:
+                    if c.root == ('param', 1) and c.path:
+                        prev_slots.add(c.path)      # Origins reads a clone as its source
+                    if c.root[0] == 'call' and c.root[1].endswith('::clone'):
+                        for src in og.of_operand(parent.blocks[c.root[2]].term.args[0]):
+                            if src.root == ('param', 1) and src.path:
+                                prev_slots.add(src.path)
+            if prev_slots == {slot}:
+                rep.ok('R1-pass-through', key + ':wraps-own-slot', 'previous handler = handler%s' % ''.join(slot))
+            else:
+                rep.violation('R1-pass-through', key + ':wraps-own-slot', 'the wrapper installed as handler%s delegates to %s: with an inspector attached another handler runs than without' % (
+                    ''.join(slot), sorted(''.join(p) for p in prev_slots) or 'no previous handler'), parent.where(b.i))
+    rep.floor('R1-wrapped-slots', n, 7)
 
 
 def check_instruction_wrappers(fx, rep, cls):
